@@ -413,24 +413,15 @@ func ruleQueueFlagWhole(c *Ctx) {
 				if !ok {
 					continue
 				}
-				// the return after the loop: dominated by a loop header, but by no block of that loop's body
-				after := false
-				for _, h := range g.Blocks {
-					body := loopBody(h)
-					if len(body) == 0 || !h.Dominates(r.Block()) || body[r.Block()] {
-						continue
-					}
-					inLoop := false
-					for b := range body {
-						if b != h && b.Dominates(r.Block()) {
-							inLoop = true
-						}
-					}
-					if !inLoop {
-						after = true
+				// the return at the end of the function body is not an early one
+				// (the implicit return at the closing brace has no position)
+				last := true
+				for _, in2 := range instrsOf(g) {
+					if r2, ok := in2.(*ssa.Return); ok && r2 != r && r.Pos() != token.NoPos && (r2.Pos() > r.Pos() || r2.Pos() == token.NoPos) {
+						last = false
 					}
 				}
-				if after {
+				if last {
 					continue
 				}
 				if g != fn && len(g.Blocks) == 1 {
@@ -2044,5 +2035,286 @@ func ruleLoadedEither(c *Ctx) {
 	}
 	if n == 0 {
 		c.viol(fnName(fn), "the loaded resource is used only where the load is known to have succeeded", p.Pos(fn.Pos()), "no use of the resource parameter found: anchor lost")
+	}
+}
+
+// ---------------------------------------------------------------------------
+// PAIR/queue-reason (C03, C01): a continuation that lifts a hold-back reason
+// when it completes (unqueueEvents(R) inside a closure handed to OnReady /
+// loadAccess) is created on a path that has set that reason (queueEvents(R))
+// before. Without the hold, events arriving while the continuation waits are
+// delivered ahead of the event the continuation is about to send.
+func ruleQueueReason(c *Ctx) {
+	p := c.P
+	qe := p.Method("server.Subscription.queueEvents")
+	uq := p.Method("server.Subscription.unqueueEvents")
+	if qe == nil || uq == nil {
+		c.undecided("(*server.Subscription).queueEvents", "anchor", "-", "not found")
+		return
+	}
+	reasonOf := func(call ssa.CallInstruction) (int64, bool) {
+		args := callArgs(call.Common())
+		if len(args) < 2 {
+			return 0, false
+		}
+		return constInt(args[1])
+	}
+	n := 0
+	for _, fn := range p.Repo {
+		if !inScopePkgs(fn, "server") || fn.Parent() == nil {
+			continue
+		}
+		for _, call := range callsIn(fn) {
+			if _, ok := isCallTo(call, uq); !ok {
+				continue
+			}
+			k, ok := reasonOf(call)
+			if !ok {
+				continue
+			}
+			n++
+			c.inst(1)
+			good := false
+			h := fn
+			for depth := 0; depth < 6 && !good; depth++ {
+				mc := p.parent[h]
+				if mc == nil {
+					break
+				}
+				for _, c2 := range callsIn(mc.Parent()) {
+					if _, ok := isCallTo(c2, qe); ok {
+						if k2, ok := reasonOf(c2); ok && k2 == k && dominates(c2, mc) {
+							good = true
+						}
+					}
+				}
+				h = mc.Parent()
+			}
+			c.check(good, fnName(fn), "a continuation that lifts a hold-back reason is created after that reason was set", p.InstrPos(call), "queueEvents with the same reason dominates the creation of the continuation",
+				"the continuation lifts a hold-back reason that no dominating queueEvents has set: events arriving while it waits are delivered ahead of the event it is about to send (and its unqueue lifts a hold somebody else set)")
+		}
+	}
+	if n == 0 {
+		c.note("no continuation lifts a hold-back reason")
+	}
+}
+
+// ---------------------------------------------------------------------------
+// PAIR/one-event-out (C03, C01): one resource event handed to a subscription
+// is passed on to the client at most once on every path of the handler (the
+// continuation of a deferred hand-over is a path of its own). Two sends on one
+// path deliver the same service event twice — in two dialects when the first
+// is the legacy form that fell through to the current one.
+func ruleOneEventOut(c *Ctx) {
+	p := c.P
+	send := []*types.Func{p.Method("server.ConnSubscriber.Send"), p.Method("server.wsConn.Send")}
+	newEvent := p.PkgFunc("rpc.NewEvent")
+	for _, nm := range []string{"(*server.Subscription).processCollectionEvent", "(*server.Subscription).processModelEvent"} {
+		fn := p.Fn(nm)
+		if fn == nil {
+			c.undecided(nm, "anchor", "-", "not found")
+			continue
+		}
+		for _, root := range p.withNewHelpers(fn) {
+			if root.Parent() == nil && root != fn {
+				continue // helpers are inlined into the paths of their callers
+			}
+			sp := &Spec{NoHelpers: true, NoCombs: true, EdgeLimit: 1}
+			sp.Inline = func(t *Tracer, fr *Frame, cl ssa.CallInstruction, f *ssa.Function) bool {
+				// only helpers extracted from the handler: what unqueueEvents delivers are other events
+				return p.isRepoFn(f) && !p.onReferenceTree(f) && f.Parent() == nil
+			}
+			sp.Classify = func(t *Tracer, fr *Frame, in ssa.Instruction) []Ev {
+				call, ok := isCallTo(in, send...)
+				if !ok {
+					return nil
+				}
+				// the event named like the incoming one (event.Event), not a follow-up such as "unsubscribe"
+				args := callArgs(call.Common())
+				if len(args) >= 2 && newEvent != nil {
+					if ne, ok := stripConv(args[1]).(*ssa.Call); ok && calleeFunc(&ne.Call) == newEvent && len(ne.Call.Args) >= 2 {
+						if _, isConst := ne.Call.Args[1].(*ssa.Const); isConst {
+							return nil
+						}
+					}
+				}
+				return []Ev{{Kind: "send"}}
+			}
+			c.inst(1)
+			tr := runTrace(p, root, sp)
+			bad := ""
+			for _, path := range tr.Paths {
+				if countKind(path, "send") > 1 {
+					bad = "the event is passed on twice on one path: " + tr.FmtPath(path)
+				}
+			}
+			if tr.Trunc {
+				bad = "path budget exhausted"
+			}
+			c.check(bad == "", fnName(root), "one resource event is passed on to the client at most once per path", p.Pos(root.Pos()), fmt.Sprintf("%d paths", len(tr.Paths)), bad)
+		}
+	}
+}
+
+// ---------------------------------------------------------------------------
+// PAIR/edge-sent-counted (C08, C02): an event that makes the client hold a new
+// reference to a resource it already has (the quick exits of the add / change
+// handlers: nothing to load, the event is sent at once) counts that reference
+// in the child's indirectsent before the event goes out. The later removal of
+// the reference counts it down again; without the count-up the child's sent
+// count goes negative, its holder sum reads zero while the client still has a
+// direct subscription, and the release of that subscription is skipped.
+func ruleEdgeSentCounted(c *Ctx) {
+	p := c.P
+	addRef := p.Method("server.Subscription.addReference")
+	fSent := p.Field("server.Subscription.indirectsent")
+	send := []*types.Func{p.Method("server.ConnSubscriber.Send"), p.Method("server.wsConn.Send")}
+	if addRef == nil || fSent == nil {
+		c.undecided("(*server.Subscription).addReference", "anchor", "-", "not found")
+		return
+	}
+	domOrLoop := func(a, s ssa.Instruction) bool {
+		if a.Block().Parent() != s.Block().Parent() {
+			return false
+		}
+		if dominates(a, s) {
+			return true
+		}
+		if h := innermostLoopHeader(a.Block()); h != nil && h.Dominates(s.Block()) && !loopBody(h)[s.Block()] {
+			return true
+		}
+		return false
+	}
+	n := 0
+	for _, nm := range []string{"(*server.Subscription).processCollectionEvent", "(*server.Subscription).processModelEvent"} {
+		fn := p.Fn(nm)
+		if fn == nil {
+			c.undecided(nm, "anchor", "-", "not found")
+			continue
+		}
+		for _, g := range p.withNewHelpers(fn) {
+			if g.Parent() != nil {
+				continue // continuations count through the resource set they build (PAIR/rpc-resources)
+			}
+			var adds, incs []ssa.Instruction
+			for _, in := range instrsOf(g) {
+				if _, ok := isCallTo(in, addRef); ok {
+					adds = append(adds, in)
+				}
+				if st, ok := in.(*ssa.Store); ok {
+					if fa, ok := st.Addr.(*ssa.FieldAddr); ok && fieldOfAddr(fa) == fSent {
+						if b, ok := st.Val.(*ssa.BinOp); ok && b.Op == token.ADD {
+							incs = append(incs, in)
+						}
+					}
+				}
+			}
+			for _, in := range instrsOf(g) {
+				if _, ok := isCallTo(in, send...); !ok {
+					continue
+				}
+				after := false
+				for _, a := range adds {
+					if domOrLoop(a, in) {
+						after = true
+					}
+				}
+				if !after {
+					continue
+				}
+				n++
+				c.inst(1)
+				counted := false
+				for _, i := range incs {
+					if domOrLoop(i, in) {
+						counted = true
+					}
+				}
+				c.check(counted, fnName(g), "an event sent at once for a reference to a resource the client already has counts the reference as sent first", p.InstrPos(in), "indirectsent++ of the referenced subscription(s) precedes the send",
+					"the event is sent on a path that added a reference without counting it in the child's indirectsent: removing the reference later drives the count negative and the release of a direct subscription of that child is skipped")
+			}
+		}
+	}
+	if n == 0 {
+		c.viol("(*server.Subscription).processCollectionEvent", "an event sent at once for a reference to a resource the client already has counts the reference as sent first", "-", "no such send found: anchor lost")
+	}
+}
+
+// ---------------------------------------------------------------------------
+// DOM/lazy-init (C02, C15): a container that a loop fills and creates on first
+// use (`if xs == nil { xs = make(...) }; xs = append(xs, x)`) is created only
+// behind the test that it does not exist yet. Created again on a later turn it
+// forgets what the earlier turns collected — for the references of a change
+// event: only the last reference is waited for and delivered, the others
+// dangle at the client.
+func ruleLazyInit(c *Ctx) {
+	p := c.P
+	n := 0
+	for _, fn := range p.Repo {
+		if !inScopePkgs(fn, "server", "rescache") {
+			continue
+		}
+		for _, in := range instrsOf(fn) {
+			st, ok := in.(*ssa.Store)
+			if !ok {
+				continue
+			}
+			switch stripConv(st.Val).(type) {
+			case *ssa.MakeSlice, *ssa.MakeMap:
+			default:
+				continue
+			}
+			h := innermostLoopHeader(st.Block())
+			if h == nil {
+				continue
+			}
+			// the same cell is extended in that loop
+			body := loopBody(h)
+			sameCell := func(a ssa.Value) bool {
+				if a == st.Addr {
+					return true
+				}
+				fa1, ok1 := a.(*ssa.FieldAddr)
+				fa2, ok2 := st.Addr.(*ssa.FieldAddr)
+				return ok1 && ok2 && fa1.X == fa2.X && fa1.Field == fa2.Field
+			}
+			grows := false
+			for b := range body {
+				for _, in2 := range b.Instrs {
+					switch y := in2.(type) {
+					case *ssa.Store:
+						if y != st && sameCell(y.Addr) {
+							if cl, ok := y.Val.(*ssa.Call); ok && isBuiltinNamed(cl, "append") {
+								grows = true
+							}
+						}
+					case *ssa.MapUpdate:
+						if ld, ok := y.Map.(*ssa.UnOp); ok && ld.Op == token.MUL && sameCell(ld.X) {
+							grows = true
+						}
+					}
+				}
+			}
+			if !grows {
+				continue
+			}
+			n++
+			c.inst(1)
+			isNil := func(i *ssa.If) (bool, bool) {
+				for _, d := range []bool{true, false} {
+					if x, nn, ok := nilTest(i, d); ok && !nn {
+						if ld, ok := x.(*ssa.UnOp); ok && ld.Op == token.MUL && sameCell(ld.X) {
+							return d, true
+						}
+					}
+				}
+				return false, false
+			}
+			c.check(p.guardedByOpt(st, isNil, false) != nil, fnName(fn), "a container filled by a loop is created only while it does not exist", p.InstrPos(st), "make behind the == nil test of the same variable",
+				"the container is created anew on a turn of the loop that has not found it missing: what earlier turns collected is forgotten")
+		}
+	}
+	if n == 0 {
+		c.note("no lazily created container filled in a loop")
 	}
 }
